@@ -24,7 +24,7 @@ def units(tier):
 
 
 def strategy(tier, unit):
-    return st.fixed_dictionaries({"cell": S.cells(), "hkl": S.hkls(30), "mod": st.sampled_from(["tools", "laue"]),
+    return st.fixed_dictionaries({"cell": S.cells(), "hkl": S.hkls(30, big=300), "mod": st.sampled_from(["tools", "laue"]),
                                   "prev": st.one_of(st.none(), S.cells(), S.logfl(1e-9, 1e-3)), "as_array": st.booleans()})
 
 
